@@ -333,7 +333,9 @@ def c15Run (c : Cfg) (tr : Trace) (anns : List CbEv) (world : List Dial) : List 
   let sleeps := tr.zipIdx.filter fun (te, _) => match te.2 with | .sleep _ => true | _ => false
   let v2 := sleeps.flatMap fun (_, p) =>
     let after := tr.drop (p + 1)
-    if after.any (fun te => match te.2 with | .dial _ => true | _ => false) || after.any (fun te => te.2 = .blocked)
+    -- (a close() from another thread while the client waits for the next attempt ends the run: no dial follows that sleep)
+    if after.any (fun te => match te.2 with | .dial _ => true | _ => false) || after.any (fun te => te.2 = .blocked) ||
+       after.any (fun te => te.2 = .closeCall)
     then [] else ["retry:sleep-without-dial"]
   -- no on_close before the end of the run: covered by onceLast; resources:
   let v3 := if resourcesBounded tr 0 0 then [] else ["resources:more-than-one"]
@@ -354,6 +356,13 @@ def c15Run (c : Cfg) (tr : Trace) (anns : List CbEv) (world : List Dial) : List 
   let v5 := anns.flatMap fun x =>
     if x.cb ≠ .onClose && actOf c.plan x.cb x.k = .close &&
        ds.any (fun (p, _, _) => decide (p > x.pos)) then ["stops:dial-after-app-close"] else []
+  -- the same for a close() from another thread: no connection attempt at a LATER tick than the call (an attempt at the very
+  -- tick of the call may have been under way already)
+  let v5b := match tr.findIdx? (fun te => te.2 = .closeCall) with
+    | some q =>
+      let tq := match tr[q]? with | some te => te.1 | none => 0
+      if ds.any (fun (p, t, _) => decide (p > q) && decide (t > tq)) then ["stops:dial-after-app-close"] else []
+    | none => []
   -- with reconnection on, a run may only return because the server closed the connection or the application
   -- asked for it (close(), KeyboardInterrupt, a failing on_error handler) -- never after a mere loss
   let v6 := match lastEv tr with
@@ -367,7 +376,7 @@ def c15Run (c : Cfg) (tr : Trace) (anns : List CbEv) (world : List Dial) : List 
         | none => false
       if asked || byFrame then [] else ["retry:gave-up-after-loss"]
     | _ => []
-  v1 ++ v2 ++ v3 ++ v4 ++ v5 ++ v6
+  v1 ++ v2 ++ v3 ++ v4 ++ v5 ++ v5b ++ v6
 
 /-! ### all runs of a scenario -/
 
